@@ -203,7 +203,7 @@ def drive_and_judge(ctx, worlds, q):
     if not ctx.replay:
         selftest(ctx, events)
         # 6. extension: header-hash paging (spec/headerhashes, harness/c02hdrhashes)
-        ext = _load_ext("c02_headerhashes") if os.environ.get("VERIF_C02_HEADERHASHES", "0") == "1" else None  # enabled once the trusted-header start defect is resolved
+        ext = _load_ext("c02_headerhashes")
         if ext:
             ext.run_ext(ctx)
 
